@@ -42,7 +42,8 @@ def gen_case(rng, tier):
         prof["w_call"] = max(prof["w_call"], 2)
     prof["prethread"] = rng.choice([0, 0, 0.3, 0.7])  # pre-existing partial threading
     prof["stale_links"] = rng.choice([0, 0, 0.5])
-    prof["while_loops"] = rng.choice([0, 0, 0.4])  # counted loops written as scf.while  # ... some of it stale (something was inserted after the IR had been threaded)
+    prof["while_loops"] = rng.choice([0, 0, 0.4])
+    prof["state_loops"] = rng.choice([0, 0, 0.6])  # hand-threaded loops that already carry an accelerator's state  # counted loops written as scf.while  # ... some of it stale (something was inserted after the IR had been threaded)
     ast = G.AccfgGen(rng, prof).program()
     return {"ast": ast, "envs": gen_envs(rng, K_ENVS[tier]), "pipeline": PIPELINE}
 
